@@ -682,6 +682,42 @@ func (g *Gen) guardedFieldOf(v ssa.Value, depth int) string {
 	return ""
 }
 
+// mapFieldOf: the struct field (by name) the map value was loaded from (possibly through a local).
+func (g *Gen) mapFieldOf(v ssa.Value, depth int) string {
+	if depth > 6 {
+		return ""
+	}
+	switch x := v.(type) {
+	case *ssa.UnOp:
+		if x.Op != token.MUL {
+			return ""
+		}
+		switch a := x.X.(type) {
+		case *ssa.FieldAddr:
+			if pt, ok := a.X.Type().Underlying().(*types.Pointer); ok {
+				if stt, ok := pt.Elem().Underlying().(*types.Struct); ok {
+					return stt.Field(a.Field).Name()
+				}
+			}
+		case *ssa.Alloc:
+			if rs := a.Referrers(); rs != nil {
+				for _, r := range *rs {
+					if s, ok := r.(*ssa.Store); ok && s.Addr == a {
+						if f := g.mapFieldOf(s.Val, depth+1); f != "" {
+							return f
+						}
+					}
+				}
+			}
+		}
+	case *ssa.Field:
+		if stt, ok := x.X.Type().Underlying().(*types.Struct); ok {
+			return stt.Field(x.Field).Name()
+		}
+	}
+	return ""
+}
+
 // lockOrderCallee: a call made while a lock of the order is held must not (transitively, per the
 // call graph, goroutine starts excluded) acquire that lock or one that precedes it. Only locks named
 // with their struct type ("T.f") are followed into callees: a bare field name is ambiguous there.
@@ -952,6 +988,14 @@ func (g *Gen) builtin(in *ssa.Call, b *ssa.Builtin, common *ssa.CallCommon, args
 	case "copy":
 		g.copyCall(in, common, args, st, reach, pos)
 	case "delete":
+		// "opt: grow-only=f1,f2": the maps held in these struct fields only ever gain keys in this function
+		if gl := g.con.Opts["grow-only"]; gl != "" {
+			if f := g.mapFieldOf(common.Args[0], 0); f != "" && inList(gl, f) {
+				n := g.safeCtr["growonly"]
+				g.safeCtr["growonly"]++
+				g.addObl("grow-only", fmt.Sprint(n), implies(reach, "false"), pos, "a key is deleted from the map in field "+f+", which this function may only add to", nil)
+			}
+		}
 		mt := common.Args[0].Type().Underlying().(*types.Map)
 		g.mapHeapsTouch(mt)
 		_, _, hk, hs, lk, ls := g.mapHeaps(mt)
